@@ -62,7 +62,8 @@ def run(ctx):
     if not T.adt:
         ctx.bad("R10.0", "ticker-adt", "expiry index type not found", detail="ANCHOR-MISSING")
         return
-    ctx.check(len(T.shard_fns) == 1, "R10.1", "one-shard-function", "the expiry -> shard mapping has exactly one definition", detail=str(sorted(T.shard_fns)))
+    maps_ = {o["mapping"] for o in T.ops if o.get("mapping") is not None}
+    ctx.check(len(maps_) == 1 and len(T.shard_fns) <= 1, "R10.1", "one-shard-function", "the expiry -> shard mapping has exactly one definition (every map operation selects its shard by the same computation)", detail=str(sorted(maps_, key=repr))[:300])
     ops = [o for o in T.ops if o["kind"] in ("insert", "remove", "get", "retain")]
     ctx.floor("R10.1", "expiry-index map operations", len(ops), 4)
     for o in ops:
@@ -243,15 +244,18 @@ def id_guard(ctx, M, RULE):
         if ok:
             rb, rt = rem[0]
             removed = f.origin_call(rb, rt)
-            ve = variant_edges(f, rt["target"])
-            some = [(rt["target"], tgt) for nme, tgt in ve[1] if nme == "Some"] if ve and strip_site(ve[0]) == strip_site(removed) else []
+            from core import variant_edges_of
+            by_switch = {}
+            for nme, e_ in variant_edges_of(f, removed):
+                if nme == "Some":
+                    by_switch.setdefault(e_[0], []).append(e_)
             hb, ht = hooks[0]
-            ok = bool(some) and all(f.edge_dominates(e, hb) for e in some)
+            # (a later switch on the same value - drop elaboration - is not the test that guards the release)
+            guards_ = [es for es in by_switch.values() if all(f.edge_dominates(e, hb) for e in es) and all(f.edge_dominates(e, s["bb"]) for e in es)]
+            ok = bool(guards_)
             arg = f.op_origin(ht["args"][1])
             ok = ok and mentions(arg, lambda x: x[0] == "field" and x[2] == "key" and any(strip_site(c) == strip_site(removed) for c in root_calls(x)))
             ok = ok and f.op_origin(rt["args"][1])[0] == "param"
-            # the subtraction too
-            ok = ok and all(f.edge_dominates(e, s["bb"]) for e in some)
         if len(hooks) == 1:
             hb0 = hooks[0][0]
             ctx.check("WU" in f.held_before_term(hb0), RULE, "%s|hook-under-total-weight-lock" % f.name,
